@@ -1,3 +1,570 @@
 package main
 
+import (
+	"bytes"
+	"compress/gzip"
+	"encoding/json"
+	"fmt"
+	"io"
+	"regexp"
+	"sort"
+	"strings"
+
+	"github.com/0xrawsec/sod"
+	"github.com/0xrawsec/sod/zzverif/vfs"
+	"github.com/0xrawsec/sod/zzverif/vrt"
+)
+
+// ---- E3: crash and fault enumeration over recorded file-operation logs -------------------
+
+var uuidRe = regexp.MustCompile(`^[0-9a-fA-F]{8}-[0-9a-fA-F]{4}-[0-9a-fA-F]{4}-[0-9a-fA-F]{4}-[0-9a-fA-F]{12}$`)
+
+// Recorded is one history executed with the mutation log on.
+type Recorded struct {
+	Cfg    Cfg
+	Path   []Op
+	Log    []vfs.Mut
+	Models []*Model            // Models[i] = reference after call i (0 = after Create)
+	Values map[string][]string // every JSON value each uuid was ever accepted with
+	Slots  []string
+	Viol   []Violation
+	OpsAt  []int // OpsAt[i] = number of file-system operations performed before call i+1 started
+	Ops    int
+}
+
+// Record runs path under cfg with the log on.
+func Record(cfg Cfg, prop string, path []Op) *Recorded {
+	r := &Recorded{Cfg: cfg, Path: path, Values: map[string][]string{}}
+	res := RunPath(cfg, prop, nil, func(w *World) {
+		r.Models = append(r.Models, w.M.Clone())
+		for _, op := range path {
+			r.OpsAt = append(r.OpsAt, w.FS.Ops)
+			w.Apply(op)
+			r.Models = append(r.Models, w.M.Clone())
+			for u, o := range w.M.Objs {
+				j := jsonOf(o)
+				vs := r.Values[u]
+				if len(vs) == 0 || vs[len(vs)-1] != j {
+					r.Values[u] = append(vs, j)
+				}
+			}
+		}
+		r.Log = append([]vfs.Mut{}, w.FS.Log...)
+		r.Slots = append([]string{}, w.Slots...)
+		r.Ops = w.FS.Ops
+	})
+	r.Viol = res.W.Viol
+	return r
+}
+
+// Materialize builds the file system holding exactly log[0:k) and, if cut >= 0,
+// the first cut bytes of write log[k].
+func Materialize(log []vfs.Mut, k int, cut int) *vfs.FS {
+	f := vfs.New()
+	for i := 0; i < k; i++ {
+		f.Apply(log[i], -1)
+	}
+	if cut >= 0 && k < len(log) {
+		f.Apply(log[k], cut)
+	}
+	return f
+}
+
+// fileClass names the kind of file a path denotes (signature axis).
+func fileClass(p string) string {
+	base := p
+	if i := strings.LastIndex(p, "/"); i >= 0 {
+		base = p[i+1:]
+	}
+	tmp := ""
+	if strings.HasPrefix(base, ".") || strings.Contains(base, "tmp") {
+		tmp = "-tmp"
+		base = strings.TrimPrefix(base, ".")
+	}
+	switch {
+	case strings.HasPrefix(base, "schema.json"):
+		return "schema" + tmp
+	case len(base) >= 36 && uuidRe.MatchString(base[:36]):
+		return "object" + tmp
+	case !strings.Contains(base, "."):
+		return "dir"
+	}
+	return "other"
+}
+
+func mutClass(m vfs.Mut) string {
+	c := m.Kind + ":" + fileClass(m.Path)
+	if m.Kind == vfs.MRename {
+		c += "->" + fileClass(m.To)
+	}
+	return c
+}
+
+// decodeFiles reads the collection directory independently of sod: name ->
+// decoded record; bad = files that look like object files but do not decode.
+func decodeFiles(f *vfs.FS, dir string, cfg Cfg) (objs map[string]*Rec, bad []string) {
+	objs = map[string]*Rec{}
+	ext := cfg.Ext
+	if ext == "" {
+		ext = ".json"
+	}
+	if cfg.Compress {
+		ext += ".gz"
+	}
+	for _, p := range f.Paths(dir) {
+		base := p[len(dir)+1:]
+		if strings.Contains(base, "/") || base == "schema.json" {
+			continue
+		}
+		if len(base) < 36 || !uuidRe.MatchString(base[:36]) || base[36:] != ext {
+			continue
+		}
+		data, _ := f.Get(p)
+		if cfg.Compress {
+			zr, err := gzip.NewReader(bytes.NewReader(data))
+			if err != nil {
+				bad = append(bad, base)
+				continue
+			}
+			d, err := io.ReadAll(zr)
+			if err != nil {
+				bad = append(bad, base)
+				continue
+			}
+			data = d
+		}
+		r := &Rec{}
+		if err := json.Unmarshal(data, r); err != nil {
+			bad = append(bad, base)
+			continue
+		}
+		r.Initialize(base[:36])
+		objs[base[:36]] = r
+	}
+	return
+}
+
+// findCollDir finds the collection directory of Rec in f (or "" if none).
+func findCollDir(f *vfs.FS, root string) string {
+	for _, p := range f.Paths(root) {
+		if !strings.HasSuffix(p, "/") {
+			continue
+		}
+		base := strings.TrimSuffix(p[len(root)+1:], "/")
+		if strings.Contains(base, "/") {
+			continue
+		}
+		if strings.ToLower(strings.ReplaceAll(base, "_", "")) == "main.rec" {
+			return root + "/" + base
+		}
+	}
+	return ""
+}
+
+// agree checks that the index of db and the decoded files describe the same
+// collection: same ids, same values through every indexed field, readable objects.
+func agree(db *sod.DB, cfg Cfg, files map[string]*Rec) []string {
+	var out []string
+	n, err := db.Count(&Rec{})
+	if err != nil {
+		return []string{"Count fails: " + err.Error()}
+	}
+	if n != len(files) {
+		out = append(out, fmt.Sprintf("index holds %d objects, directory holds %d object files", n, len(files)))
+	}
+	all, err := db.All(&Rec{})
+	if err != nil {
+		out = append(out, "All fails: "+err.Error())
+	} else {
+		for _, o := range all {
+			f, ok := files[o.UUID()]
+			if !ok {
+				out = append(out, "All returns an object without file")
+			} else if jsonOf(o) != jsonOf(f) {
+				out = append(out, "All returns a value different from the file content")
+			}
+		}
+	}
+	for u, f := range files {
+		for i := range fieldSpecs {
+			spec := &fieldSpecs[i]
+			if !indexedUnder(cfg, spec.Path) {
+				continue
+			}
+			probe := rawValue(spec.Path, f)
+			s := db.Search(&Rec{}, spec.Path, "=", probe)
+			if s.Err() != nil {
+				out = append(out, fmt.Sprintf("Search(%s) fails: %v", spec.Path, s.Err()))
+				break
+			}
+			objs, err := s.Collect()
+			found := false
+			for _, o := range objs {
+				if o.UUID() == u {
+					found = true
+				}
+			}
+			if err != nil || !found {
+				out = append(out, fmt.Sprintf("index of %s does not hold the value stored in the file of an object (stale or missing entry; collect err %v)", spec.Path, err))
+				break
+			}
+		}
+	}
+	// uniqueness over files
+	ks, ns := map[string]bool{}, map[int64]bool{}
+	for _, f := range files {
+		if ks[f.K] || ns[f.N] {
+			out = append(out, "two object files hold the same unique value")
+		}
+		ks[f.K], ns[f.N] = true, true
+	}
+	sort.Strings(out)
+	return out
+}
+
+// rawValue returns the Go value of field path p of r as a user would pass it to Search.
+func rawValue(p string, r *Rec) interface{} {
+	switch p {
+	case "K":
+		return r.K
+	case "N":
+		return r.N
+	case "A":
+		return r.A
+	case "U16":
+		return r.U16
+	case "U64":
+		return r.U64
+	case "F64":
+		return r.F64
+	case "F32":
+		return r.F32
+	case "S":
+		return r.S
+	case "T":
+		return r.T
+	case "P":
+		return r.P
+	case "L":
+		return r.L
+	case "In.Tag":
+		return inner(r).Tag
+	case "In.Lvl":
+		return inner(r).Lvl
+	case "Emb.E":
+		return r.E
+	}
+	panic(p)
+}
+
+// RecoverOutcome is what the recovery protocol observed on a materialised tree.
+type RecoverOutcome struct {
+	Class    string // not-created | clean | detected | unreadable | lost-schema
+	Problems []string
+	Err      string
+}
+
+// crashImage: one (history, crash point) case.
+type crashImage struct {
+	K    int
+	Cut  int
+	Call int // call during which the crash happens (len(path)+1 = after everything was acknowledged)
+}
+
+// checkCrash runs the recovery protocol on image img of rec and returns violations.
+func checkCrash(rec *Recorded, img crashImage, prop string) []Violation {
+	cfg := rec.Cfg
+	var viol []Violation
+	window := "end"
+	last := "none"
+	if img.K > 0 {
+		last = mutClass(rec.Log[img.K-1])
+	}
+	if img.K < len(rec.Log) {
+		window = mutClass(rec.Log[img.K])
+		if img.Cut >= 0 {
+			window = "torn-" + window
+		}
+	}
+	opName := "end"
+	if img.Call >= 1 && img.Call <= len(rec.Path) {
+		opName = rec.Path[img.Call-1].Op
+	}
+	asyncTag := ""
+	if cfg.Async != 0 {
+		asyncTag = "|async"
+	}
+	// phase of the interrupted call: did any object file change persist, was the schema replaced
+	objPersisted, schemaCommitted := "no", "no"
+	for i := 0; i < img.K; i++ {
+		m := rec.Log[i]
+		if m.Call != img.Call {
+			continue
+		}
+		target := m.Path
+		if m.Kind == vfs.MRename {
+			target = m.To
+		}
+		switch fileClass(target) {
+		case "object":
+			if m.Kind != vfs.MSync {
+				objPersisted = "yes"
+			}
+		case "schema":
+			schemaCommitted = "yes"
+		}
+	}
+	mode := "sync"
+	if cfg.Async != 0 {
+		mode = "async"
+	}
+	_ = asyncTag
+	fail := func(sym, what string) {
+		viol = append(viol, Violation{
+			Sig:  fmt.Sprintf("%s|%s|%s|object-change-persisted=%s|schema-committed=%s", prop, sym, mode, objPersisted, schemaCommitted),
+			What: fmt.Sprintf("%s\n  crash during call %d (%s) after %d of %d file mutations (last persisted: %s; first lost: %s, cut=%d)", what, img.Call, opName, img.K, len(rec.Log), last, window, img.Cut),
+			Cfg:  cfg, Path: rec.Path,
+			More: map[string]interface{}{"crash_index": img.K, "cut": img.Cut},
+		})
+	}
+	fsys := Materialize(rec.Log, img.K, img.Cut)
+	acked := img.Call - 1 // calls fully acknowledged
+	if acked > len(rec.Path) {
+		acked = len(rec.Path)
+	}
+	createAcked := img.Call >= 1
+	x := vrt.Run(vrt.Config{Sequential: true, MaxTicks: 100}, func() {
+		vfs.Cur = fsys
+		sod.LowercaseNames = cfg.Lower
+		vrt.MapReverse = cfg.MapRev
+		db := sod.Open(dbRoot)
+		_, err := db.Schema(&Rec{})
+		cls := classify(err)
+		dir := findCollDir(fsys, dbRoot)
+		switch {
+		case err == nil:
+		case cls == eCorrupted:
+		case cls == eNotFound:
+			if createAcked {
+				fail("schema-lost", "Create was acknowledged but the schema cannot be found after the crash: "+err.Error())
+			}
+			return
+		default:
+			if createAcked {
+				fail("unreadable", "the collection is unreadable after the crash (neither clean nor reported as index corruption): "+err.Error())
+			}
+			return
+		}
+		files, bad := decodeFiles(fsys, dir, cfg)
+		if len(bad) > 0 && cfg.Async == 0 {
+			fail("object-unreadable", fmt.Sprintf("object file(s) left undecodable: %d", len(bad)))
+			return
+		}
+		if err == nil {
+			if len(bad) > 0 {
+				fail("object-unreadable", fmt.Sprintf("object file(s) left undecodable and the load reports nothing: %d", len(bad)))
+				return
+			}
+			if pr := agree(db, cfg, files); len(pr) > 0 {
+				fail("clean-but-disagree", "the load reports no corruption but index and files disagree: "+strings.Join(pr, "; "))
+				return
+			}
+		}
+		// Repair converges
+		if rerr := db.Repair(&Rec{}); rerr != nil {
+			fail("repair-failed", "Repair failed: "+rerr.Error())
+			return
+		}
+		if cerr := db.Control(); cerr != nil {
+			fail("control-after-repair", "Control fails after Repair: "+cerr.Error())
+			return
+		}
+		files2, bad2 := decodeFiles(fsys, dir, cfg)
+		if len(bad2) > 0 {
+			fail("object-unreadable", fmt.Sprintf("object file(s) undecodable after Repair: %d", len(bad2)))
+			return
+		}
+		if pr := agree(db, cfg, files2); len(pr) > 0 {
+			fail("disagree-after-repair", "after Repair index and files disagree: "+strings.Join(pr, "; "))
+			return
+		}
+		// acknowledged operations are reflected; the interrupted one is atomic per object
+		old := rec.Models[acked]
+		newer := old
+		if acked+1 < len(rec.Models) {
+			newer = rec.Models[acked+1]
+		}
+		ids := map[string]bool{}
+		for u := range old.Objs {
+			ids[u] = true
+		}
+		for u := range newer.Objs {
+			ids[u] = true
+		}
+		for u := range files2 {
+			ids[u] = true
+		}
+		for u := range ids {
+			got := ""
+			if f, ok := files2[u]; ok {
+				got = jsonOf(f)
+			}
+			o, n := "", ""
+			if m, ok := old.Objs[u]; ok {
+				o = jsonOf(m)
+			}
+			if m, ok := newer.Objs[u]; ok {
+				n = jsonOf(m)
+			}
+			if cfg.Async == 0 {
+				if got != o && got != n {
+					fail("not-old-not-new", fmt.Sprintf("object %s is neither in its last acknowledged state nor in the state the interrupted call gives it: file=%q acknowledged=%q new=%q", renameSlots(rec.Slots, u), got, o, n))
+					return
+				}
+			} else if got != "" {
+				okv := false
+				for _, v := range rec.Values[u] {
+					if v == got {
+						okv = true
+					}
+				}
+				if !okv && got != n {
+					fail("async-never-accepted-value", fmt.Sprintf("object %s holds a value it was never accepted with: %q", renameSlots(rec.Slots, u), got))
+					return
+				}
+			}
+		}
+	})
+	for _, p := range x.Panics {
+		fail("panic|"+firstLine(p.Value), "panic during recovery: "+p.Value+"\n"+trimStack(p.Stack))
+	}
+	if x.Deadlock || x.Horizon {
+		fail("stuck", "recovery blocked")
+	}
+	return viol
+}
+
+func renameSlots(slots []string, s string) string {
+	for i, u := range slots {
+		s = strings.ReplaceAll(s, u, fmt.Sprintf("<s%d>", i))
+	}
+	return s
+}
+
+func init() { drivers["C05"] = runC05 }
+
+func crashAlphabet(cfg Cfg) []Op {
+	a := []Op{
+		{Op: "ins", V: 1, K: 0},
+		{Op: "ins", V: 1, K: 2}, // shares every index value with the first
+		{Op: "upd", Slot: 0, V: 2, K: 0},
+		{Op: "upd", Slot: 1, V: 0, K: 3},
+		{Op: "del", Slot: 0},
+		{Op: "delall"},
+		{Op: "many", Batch: []Mem{{Kind: "fresh", V: 2, K: 3}, {Kind: "fresh", V: 3, K: 4}}},
+		{Op: "sdel", Field: "A", Cmp: ">=", Probe: 2},
+	}
+	if cfg.Async != 0 {
+		a = append(a, Op{Op: "tick"}, Op{Op: "flushallc"}, Op{Op: "reopen"})
+	}
+	return a
+}
+
+func enumPaths(alphabet []Op, depth int) [][]Op {
+	var out [][]Op
+	var gen func(p []Op, d int)
+	gen = func(p []Op, d int) {
+		if len(p) > 0 {
+			out = append(out, append([]Op{}, p...))
+		}
+		if d == 0 {
+			return
+		}
+		for _, op := range alphabet {
+			gen(append(p, op), d-1)
+		}
+	}
+	gen(nil, depth)
+	return out
+}
+
+func runC05(c *Ctx) {
+	depth := 3
+	cfgs := []Cfg{{}, {Cache: true}, {Compress: true, Ext: ".obj"}, {Async: 1}}
+	if c.Tier == "thorough" {
+		depth = 4
+		cfgs = append(cfgs, Cfg{Async: 2, Compress: true}, Cfg{Index: 2, Lower: true})
+	}
+	item := 0
+	for _, cfg := range cfgs {
+		paths := enumPaths(crashAlphabet(cfg), depth)
+		// plus the creation itself
+		paths = append([][]Op{{}}, paths...)
+		for _, p := range paths {
+			item++
+			if item%c.NShards != c.Shard {
+				continue
+			}
+			if c.Expired() {
+				c.Count("depth_incomplete", 1)
+				return
+			}
+			rec := Record(cfg, "C05", p)
+			if len(rec.Viol) > 0 {
+				// the history itself diverges from the reference (other properties' business)
+				c.Count("histories_skipped", 1)
+				continue
+			}
+			applicable := len(rec.Models) == len(p)+1
+			if !applicable {
+				continue
+			}
+			c.Count("paths_replayed", 1)
+			c.Count("transitions", len(p))
+			lastCall := len(p)
+			var images []crashImage
+			for k, m := range rec.Log {
+				if m.Call != lastCall {
+					continue
+				}
+				images = append(images, crashImage{K: k, Cut: -1, Call: m.Call})
+				if m.Kind == vfs.MWrite && len(m.Data) > 1 {
+					for _, cut := range []int{1, len(m.Data) / 2, len(m.Data) - 1} {
+						images = append(images, crashImage{K: k, Cut: cut, Call: m.Call})
+					}
+				}
+			}
+			// after the last call was acknowledged
+			images = append(images, crashImage{K: len(rec.Log), Cut: -1, Call: lastCall + 1})
+			for _, img := range images {
+				c.Count("evaluations", 1)
+				c.Count("crash_images", 1)
+				key := fmt.Sprintf("%s|%s|%d|%d", cfg, jsonOf(p), img.K, img.Cut)
+				c.Distinct("states", key)
+				if img.K < len(rec.Log) {
+					c.Distinct("distinct_nontrivial", key)
+				}
+				for _, v := range checkCrash(rec, img, "C05") {
+					c.Violation(v)
+				}
+			}
+			if item < 60 && len(p) > 1 {
+				var ks []string
+				for _, m := range rec.Log {
+					if m.Call == lastCall {
+						ks = append(ks, mutClass(m))
+					}
+				}
+				c.Sample(map[string]interface{}{"cfg": cfg, "history": p, "mutations_of_last_call": ks, "crash_images": len(images)})
+			}
+		}
+	}
+	c.Max("depth_completed", depth)
+	c.Meta(map[string]interface{}{
+		"rule": "every history up to the depth over the crash alphabet (inserts sharing index values, updates, deletes, DeleteAll, batch, search-delete; async: tick, FlushAllAndCommit, reopen) is executed with the mutation log on; for every mutation of its last call (earlier calls are the last call of a shorter history) the tree holding exactly the log prefix is materialised, and for every write additionally the trees with the write cut at 1, 1/2 and len-1 bytes; plus the tree after acknowledgement. Recovery protocol on each image: Open, first load, classify {clean, detected, unreadable}, index/file agreement through every indexed field when clean, Repair, Control, agreement, and per-object 'last acknowledged or new' (sync) / 'a value it was accepted with' (async) against files decoded without sod code. Non-trivial = images strictly inside a call.",
+		"configs": cfgs, "depth": depth,
+		"assumptions": []string{"process-crash model: completed system calls persist in order; torn single writes; no reordering, no directory-entry loss"},
+	})
+}
+
 func runC06Faults(c *Ctx) {}
